@@ -575,6 +575,22 @@ func (e *Engine) evalCall(s *State, c *SpecCtx, n *ast.CallExpr) *SV {
 		md, _, ks := e.mapNames(mt)
 		h := e.specHeap(s, c, md, "(Array Int (Array "+ks+" Bool))")
 		return &SV{V: &Val{L: []string{app("ite", eq(m.V.L[0], "0"), "((as const (Array "+ks+" Bool)) false)", app("select", h, m.V.L[0]))}}, Sort: "(Array " + ks + " Bool)"}
+	case "bstr":
+		// bstr(s, i, n): the string made of the n bytes of slice s starting at index i
+		sl, ix, ln := arg(0), arg(1), arg(2)
+		u := sl.T.Underlying().(*types.Slice)
+		h := e.specHeap(s, c, "E!"+typeKey(u.Elem()), "(Array Int (Array Int Int))")
+		e.globalDecl("(declare-fun bstr ((Array Int Int) Int Int) Str)")
+		return &SV{V: &Val{L: []string{app("bstr", app("select", h, sl.V.L[0]), app("+", sl.V.L[1], ix.V.L[0]), ln.V.L[0])}}, Sort: "Str", T: types.Typ[types.String]}
+	case "elems":
+		// elems(s): the backing array of slice s (as an SMT array); off(s): index of s[0] in it
+		sl := arg(0)
+		u := sl.T.Underlying().(*types.Slice)
+		lf := e.leaves(u.Elem())[0]
+		h := e.specHeap(s, c, "E!"+typeKey(u.Elem())+lf.Path, "(Array Int (Array Int "+lf.Sort+"))")
+		return &SV{V: &Val{L: []string{app("select", h, sl.V.L[0])}}, Sort: "(Array Int " + lf.Sort + ")"}
+	case "off":
+		return svInt(arg(0).V.L[1])
 	case "cast":
 		// cast(x, "pkg.Type"): the *pkg.Type held by interface value x
 		lit := n.Args[1].(*ast.BasicLit)
@@ -795,7 +811,9 @@ func (e *Engine) evalCall(s *State, c *SpecCtx, n *ast.CallExpr) *SV {
 		sorts = sf.Args
 	}
 	sym := "sf!" + fname
-	e.globalDecl(fmt.Sprintf("(declare-fun %s (%s) %s)", sym, strings.Join(sorts, " "), res))
+	if _, declared := e.C.SpecFns[fname]; !declared {
+		e.globalDecl(fmt.Sprintf("(declare-fun %s (%s) %s)", sym, strings.Join(sorts, " "), res))
+	}
 	if len(args) == 0 {
 		return &SV{V: &Val{L: []string{sym}}, Sort: res}
 	}
